@@ -47,13 +47,13 @@ E1 = {
 }
 
 E1_RULE = {
-    "C01": "cases = op histories (bounded-exhaustive depth<=D from 13 start states with every drop order of <=3 survivors, plus seeded random walks of 30-150 ops); after every op every live handle is compared with its Vec<u8> model. A cell = (handle type | backing representation incl. refcount class | op | argument class | outcome); cells of pure drop ops are not counted.",
+    "C01": "cases = op histories (bounded-exhaustive depth<=D from 16 start states with every drop order of <=3 survivors, plus seeded random walks of 30-150 ops); after every op every live handle is compared with its Vec<u8> model. A cell = (handle type | backing representation incl. refcount class | op | argument class | outcome); cells of pure drop ops are not counted.",
     "C02": "same histories with out-of-contract arguments mixed in (1/4 of ops), run on the ledger allocator (red zones, poison+quarantine, layout-exact free, address-range check of every handle after every op; even/odd/mixed address parity), under ASan, Miri and (thorough) valgrind. Cells as in C01 plus OOC|repr|variant|outcome.",
     "C03": "same histories; at the end of each history survivors are dropped (every order for <=3 survivors in the exhaustive part) and the ledger balance of blocks allocated during the history must be 0; refcount conservation (stored count == live handles per control block, via H2) and owner as_ref/drop counters checked after every op; LSan and Miri leak checks on the same workload.",
     "C04": "BytesMut-centred histories; after every op all BytesMut regions [ptr,ptr+cap) are checked pairwise disjoint, disjoint from every live Bytes, and contained in one live ledger block; reserve/try_reclaim postconditions with boundary arguments (0, spare+-1, alloc-len(+1), alloc, 2*alloc+1); periodic write probes fill spare capacity and re-compare every other handle; unrepresentable requests (usize::MAX-len-k, isize::MAX+1+k) must panic / answer false; 144 abort-class requests (2^41 .. isize::MAX-len, one child process each) must panic or die of allocation failure, never return. Cells as in C01.",
     "C07": "same histories; each zero-copy op asserts result address == source address + logical offset (also for empty split parts) and that the ledger saw no align-1 allocation during the call. Cells as in C01.",
     "C08": "same histories; is_unique() of every live Bytes is evaluated after every op against a three-valued oracle built from the pool and the ledger (must-true / must-false / unspecified); try_into_mut is compared with is_unique and the address; try_reclaim/reserve on an empty sole handle must reclaim. A cell = uniq|repr|expectation|answer, plus the op cells.",
-    "C13": "same histories with 1/4 of the ops replaced by an out-of-contract call (32 variants: len+1+k, cap+1+k, usize::MAX-k, isize::MAX+1+k, inverted / overflowing ranges, foreign and straddling slice_ref, oversized reserve/resize/put_bytes); each must panic or be the documented no-op, and a (ptr,len,cap,content-hash) snapshot of every handle must be unchanged afterwards; the history then continues under all other monitors and ends with the leak balance; plus 144 abort-class requests in child processes (accepted: panic or allocation-failure abort). Cells = OOC|repr|variant|outcome plus op cells.",
+    "C13": "same histories with 1/4 of the ops replaced by an out-of-contract call (34 variants: len+1+k, cap+1+k, usize::MAX-k, isize::MAX+1+k, inverted / overflowing ranges, foreign and straddling slice_ref, oversized reserve/resize/put_bytes); each must panic or be the documented no-op, and a (ptr,len,cap,content-hash) snapshot of every handle must be unchanged afterwards; the history then continues under all other monitors and ends with the leak balance; plus 144 abort-class requests in child processes (accepted: panic or allocation-failure abort). Cells = OOC|repr|variant|outcome plus op cells.",
 }
 
 
@@ -64,7 +64,7 @@ def nontrivial_cell(c):
 def e1_jobs(prop, tier, seed):
     c = E1[prop]
     quick = tier != "thorough"
-    base = (["--ooc"] if c["ooc"] else []) + (["--profile", "mut"] if c["profile"] == "mut" else [])
+    base = ["--prop", prop] + (["--ooc"] if c["ooc"] else []) + (["--profile", "mut"] if c["profile"] == "mut" else [])
     crash = c["crash"]
     jobs = []
     n = vlib.JOBS
@@ -105,7 +105,7 @@ def e1_jobs(prop, tier, seed):
     # accepted outcomes are a panic or the allocation-failure abort; "returned" is judged by the monitors
     if prop in ("C04", "C13"):
         exe = binpath("rel", "seqdrive")
-        for st in (8, 9, 10, 11, 12, 13):
+        for st in (8, 9, 10, 11, 12, 15):
             for op in range(4):
                 for cls in range(6):
                     jobs.append(Job(f"single:{st}:{op}:{cls}", [exe, "single", "--start", str(st), "--op", str(op), "--arg", str(cls)], build="rel", crash="violation" if prop == "C13" else "inconclusive", abort_ok=True, timeout=120))
@@ -307,6 +307,11 @@ def run_c17(prop, tier, seed, t0):
     for j in mj:
         j.crash = "violation"
     jobs += mj
+    # owner / iterator / IntoIter entries completely under Miri (uninitialised reads are only visible there)
+    mj2 = buf_miri("faults", [["--seed", str(seed), "--shard", str(k), "--nshards", "4", "--count", "0", "--entry-from", "18", "--entry-to", "24"] for k in range(4)], "miri-iter", seed, ignore_leaks=False)
+    for j in mj2:
+        j.crash = "violation"
+    jobs += mj2
     rule = ("fault injection: a Buf written in safe code lies according to a plan (which trait call number misreports: remaining +1/+9/-1/usize::MAX/0, chunk shorter/empty/a different valid slice, advance ignored/halved/doubled, or panics; chunks_vectored returning more than dst.len(); a call budget makes every schedule terminate), "
             "plus AsRef owners answering differently per call / panicking and iterators with wrong size_hints. 30 crate entry points plus serde's visit_seq (lying SeqAccess::size_hint, injected element errors) consume them (every getter row, copy_to_slice/bytes incl. Chain/Take, chunks_vectored via Take/Chain, put into Vec/BytesMut/slices/Limit/Chain, Reader, IntoIter, from_owner, Extend/FromIterator, forwarding impls). "
             "Exhaustive over entry x first lying call<=6 x 12 lie codes, then seeded multi-lie schedules. Oracle: ledger violations, ledger leak balance after unwinding, ASan/LSan, Miri, process status; wrong results and panics are allowed. "
